@@ -29,7 +29,7 @@ def obligations(tier):
         obs.append(Ob("C08.text/%s%s" % ("svg-" if ns != C08.HTML else "", name), "crosshair", "harness.C08:text_in_element", T, param={"elem": ei, "len": L},
                       bounds="<%s> (namespace %s) + Characters or SpaceCharacters of <= %d arbitrary Unicode characters + end tag; scripting on/off; all escaping / quoting options symbolic" % (name, "svg" if ns != C08.HTML else "html", L), encodes=[SER, "xml.sax.saxutils.escape"]))
     for i in range(17):
-        obs.append(Ob("C08.entity-replacement/first-%d" % i, "crosshair", "harness.C14:reverse_map", T, param={"first": i, "kmax": 1 if q else 3}, bounds="unencodable text of <= %d characters over a 17-character class alphabet: the named / numeric replacement decodes back, alone and followed by a letter, digit, '=' or ';', in text and attribute context" % (2 if q else 3),
+        obs.append(Ob("C08.entity-replacement/first-%d" % i, "crosshair", "harness.C14:reverse_map", T, param={"first": i, "kmax": 1 if q else 2}, bounds="unencodable text of <= %d characters over a 17-character class alphabet: the named / numeric replacement decodes back, alone and followed by a letter, digit, '=' or ';', in text and attribute context" % (1 if q else 2),
                       encodes=["html5lib/serializer.py:htmlentityreplace_errors", "html5lib/serializer.py:_encode_entity_map"]))
     for f0 in range(len(C08.RFRAG)):
         obs.append(Ob("C08.attribute-refs/first-%02d" % f0, "crosshair", "harness.C08:attribute_refs", T, param={"f0": f0, "nfrag": 2 if q else 4},
